@@ -87,6 +87,7 @@ def run(chk):
                              "expected": sorted(map(repr, al)), "observed": repr(got[k])})
     bundled(chk, rng, thorough)
     two_parameters(chk)
+    array_parameters(chk)
     return chk.finish(
         rule="cases = stacks of up to three activations of MC_C11 (context, keyword parameter) realised through nine activation forms, 16 "
              "probe conversions each compared with the specification's admissible set; distinct by activation sequence; non-trivial = at "
@@ -317,6 +318,34 @@ def two_parameters(chk):
             # context's 2 or the inner context's 1: the statement does not say which, both are admitted); k likewise
             if got not in want:
                 chk.diverge({"clause": "parameter-resolution", "form": form, "inner_keywords": sorted(inner_kw)}, {"outer_n": outer_n, "inner": inner_kw, "expected": sorted(want), "observed": str(got)})
+
+
+def array_parameters(chk):
+    """a context parameter is a value handed to the rule's equation: an array (not hashable) is as good as a number, in every form"""
+    import numpy as np
+    import pint
+    u = pint.UnitRegistry(["a = [A]", "b = [B]"])
+    c = pint.Context("c", defaults={"n": 1.0})
+    c.add_transformation("[A]", "[B]", lambda ureg, x, n: x * n * ureg.Quantity(1, "b / a"))
+    u.add_context(c)
+    n = np.array([1.0, 2.0, 4.0])
+    q = u.Quantity(3.0, "a")
+    forms = {"to": lambda: q.to("b", "c", n=n), "with": lambda: (lambda: [u.enable_contexts("c", n=n), q.to("b"), u.disable_contexts()][1])(),
+             "quantity-parameter": lambda: q.to("b", "c", n=u.Quantity(n, "dimensionless"))}
+    for name, f in forms.items():
+        chk.case(("array-parameter", name))
+        try:
+            r = f()
+            ok = np.allclose(np.asarray(r.to("b").magnitude, dtype=float), 3.0 * n)
+        except Exception as e:
+            try:
+                u.disable_contexts()
+            except Exception:
+                pass
+            chk.diverge({"clause": "array-parameter-raises", "form": name, "exc": type(e).__name__}, {"form": name, "error": repr(e)[:200]})
+            continue
+        if not ok:
+            chk.diverge({"clause": "array-parameter", "form": name}, {"form": name, "observed": repr(r)})
 
 
 def replay(chk, rec):
